@@ -81,8 +81,8 @@ Record tables := {
   t_upper : char -> str;                        (* str.upper() of one character *)
   t_special_values : list (str * str);
   t_accents : list (str * list str);            (* accent macro -> Unicode name parts *)
-  t_accent_char : str -> char -> option char;   (* unicodedata.lookup result *)
-  t_accent_alone : str -> option char;          (* accent without letter *)
+  t_accent_char : str -> char -> option str;   (* unicodedata.lookup result (a named sequence may hold several characters) *)
+  t_accent_alone : str -> option str;          (* accent without letter *)
   t_heading_punct : list str; t_item_default_label : list str;
   t_item_punctuation : list str;
   t_math_ignore : list str; t_math_space : list str;
